@@ -85,8 +85,14 @@ def x_equals_z(X, Z):
     return torch.equal(X.expand(*bxz, *X.shape[-2:]), Zt.expand(*bxz, *Zt.shape[-2:]))
 
 
-def bp_label(bp):
-    return f"z{bp['zb']}v{bp['vb']}m{bp['mb']}x{bp['xb']}".replace(" ", "")
+def bp_labels(bp):
+    """coarse labels of a batch pattern (kept few so that every strategy x distribution cell stays visible in the
+    evidence histogram)"""
+    model_b = bp["zb"] or bp["vb"] or bp["mb"]
+    xb = bp["xb"]
+    xkind = "none" if not xb else ("model" if xb == model_b else ("extra" if len(xb) > len(model_b) else "other"))
+    return [f"batch:Z={int(bool(bp['zb']))},q={int(bool(bp['vb']))},hyper={int(bool(bp['mb']))}", f"batch:x={xkind}",
+            ]
 
 
 class ciq_settings:
@@ -246,7 +252,7 @@ def run_dist(case, ctx: Ctx):
     if wS is not None:
         ctx.close("covariance", gS, wS, rtol=tol, atol=tol, scale=sc)
     ctx.set_nontrivial(VM.q_is_nontrivial(m, Sq) and M >= 2)
-    ctx.label(f"dist={dist}", f"via={case['via']}", f"vb={vb}", f"M={M}", *[f"extra={k}" for k in case.get("extras", {})])
+    ctx.label(f"cell=dist:{dist}", f"dist.via={case['via']}", *[f"dist.extra={k}" for k in case.get("extras", {})])
 
 
 # ---------------------------------------------------------------------------------------------------
@@ -340,9 +346,7 @@ def run_svgp(case, ctx: Ctx):
         close_bcast(ctx, "kl", obs["kl"], wkl, ktol, scale=scale_of(wkl))
     ctx.equal("variational_params_initialized", obs["initialized"], 1)
     ctx.set_nontrivial(VM.q_is_nontrivial(m, Sq) and case["n"] >= 2)
-    ctx.label(f"cell={strat}/{dist}", f"mode={mode}", f"bp={bp_label(bp)}", f"jitter={r['jitter']}", f"init={case['init']}",
-              f"xmode={case['xmode']}", f"mean={r['mean']['m']}", f"learn_z={r['learn_z']}", f"d={case['d']}",
-              *{f"leaf={l['k']}" for l in kern.leaves(r["kernel"])})
+    ctx.label(f"cell={strat}/{dist}", f"mode={mode}", *bp_labels(bp), f"init={case['init']}", f"xmode={case['xmode']}")
 
 
 # ---------------------------------------------------------------------------------------------------
@@ -392,7 +396,7 @@ def run_meta(case, ctx: Ctx):
         # KL is invariant under the change of variables u = mz + L e (a point mass has no density: not comparable)
         close_bcast(ctx, "kl", b["kl"], a["kl"], tol, scale=scale_of(a["kl"]))
     ctx.set_nontrivial(VM.q_is_nontrivial(mw, Sw) and case["n"] >= 2)
-    ctx.label(f"cell={dist}->{case['twin_dist']}", f"mode={mode}", f"bp={bp_label(bp)}", f"jitter={r['jitter']}")
+    ctx.label(f"cell=meta:{dist}", f"meta.twin={case['twin_dist']}", f"mode={mode}", *bp_labels(bp))
 
 
 # ---------------------------------------------------------------------------------------------------
@@ -475,7 +479,7 @@ def run_prior(case, ctx: Ctx):
         close_bcast(ctx, "kl", obs["kl"], wkl, ktol, scale=1.0)
     ctx.equal("variational_params_initialized", obs["initialized"], 1)
     ctx.set_nontrivial(case["n"] >= 2 and M >= 2)
-    ctx.label(f"cell={strat}/{dist}", f"via={case['via']}", f"mode={mode}", f"bp={bp_label(bp)}")
+    ctx.label(f"cell=prior:{strat}", f"prior.via={case['via']}", f"mode={mode}", *bp_labels(bp))
 
 
 # ---------------------------------------------------------------------------------------------------
@@ -575,8 +579,9 @@ def run_bdecoupled(case, ctx: Ctx):
     ctx.close("cov", obs["cov"], VO.best_of(obs["cov"], cov_candidates(wc, jit, (0, 1))), rtol=tol, atol=tol, scale=sc)
     close_bcast(ctx, "kl", obs["kl"], wkl, tol_for(VO.cond(Sw), r["kernel"]), scale=scale_of(wkl))
     ctx.set_nontrivial(VM.q_is_nontrivial(mw, Sw) and case["n"] >= 2)
-    ctx.label(f"cell=BatchDecoupled/{dist}", f"mode={mode}", f"mvbd={r['mvbd']}", f"bp={bp_label(bp)}", f"two_sets={case['Z2'] is not None}",
-              f"hypers={'shared' if not bp['mb'] or bp['mb'][-1] == 1 else 'separate'}", f"init={case['init']}")
+    ctx.label(f"cell=BatchDecoupled/{dist}", f"mode={mode}", f"BatchDecoupled.mvbd={r['mvbd']}",
+              f"BatchDecoupled.hypers={'shared' if not bp['mb'] or 2 not in bp['mb'][-2:] else 'separate'}", f"BatchDecoupled.xb={'stacked' if collide else ('none' if not bp['xb'] else 'batched')}",
+              f"init={case['init']}")
 
 
 # ---------------------------------------------------------------------------------------------------
@@ -654,8 +659,7 @@ def run_orth(case, ctx: Ctx):
         got = got.expand(cands[0].shape)
     ctx.close("kl", got, VO.best_of(got, cands), rtol=tol, atol=tol, scale=scale_of(cands[0]))
     ctx.set_nontrivial(VM.q_is_nontrivial(mw, Sw) and n >= 2 and bool(a.abs().max() > 0))
-    ctx.label(f"cell=Orthogonal/{dist}", f"mode={mode}", f"bp={bp_label(bp)}o{bp['ob']}zb{bp['zbb']}".replace(" ", ""), f"init={case['init']}",
-              f"jitters={r['jitter']}/{r['orth']['jitter']}")
+    ctx.label(f"cell=Orthogonal/{dist}", f"mode={mode}", *bp_labels(bp), f"init={case['init']}")
 
 
 def _bcastable(a, b):
@@ -747,8 +751,8 @@ def run_grid(case, ctx: Ctx):
     ctx.close("cov", obs["cov"], wc, rtol=tol, atol=tol, scale=sc)
     close_bcast(ctx, "kl", obs["kl"], wkl, tol_for(max(kap, VO.cond(Sq)), r["kernel"]), scale=scale_of(wkl))
     ctx.set_nontrivial(case["n"] >= 2 and bool(m.abs().max() > 0))
-    ctx.label(f"cell=Grid/{dist}", f"mode={mode}", f"d={d}", f"g={g}", f"layout={'symmetric' if sym else 'asymmetric'}",
-              f"bp={bp_label(bp)}", f"init={case['init']}")
+    ctx.label(f"cell=Grid/{dist}", f"mode={mode}", f"Grid.d={d}", f"Grid.layout={'symmetric' if sym else 'asymmetric'}",
+              *bp_labels(bp), f"init={case['init']}")
 
 
 # ---------------------------------------------------------------------------------------------------
@@ -835,8 +839,7 @@ def run_multitask(case, ctx: Ctx):
     if base != "Unwhitened":
         close_bcast(ctx, "kl", obs["kl"], wkl, tol_for(VO.cond(Sq), r["kernel"]), scale=scale_of(wkl))
     ctx.set_nontrivial(VM.q_is_nontrivial(m, Sq) and case["n"] >= 2 and case["L"] >= 2)
-    ctx.label(f"cell={kind}[{base}]/{dist}", f"{kind}.layout={case['layout']}", f"{kind}.ti={int(ti is not None)}", f"mode={mode}", f"T={case['T']}",
-              f"L={case['L']}", f"bp={bp_label(bp)}", f"init={case['init']}")
+    ctx.label(f"cell={kind}/{dist}", f"{kind}.base={base}", f"{kind}.layout={case['layout']}", f"{kind}.task_indices={int(ti is not None)}", f"mode={mode}", f"init={case['init']}")
 
 
 # ---------------------------------------------------------------------------------------------------
